@@ -679,11 +679,11 @@ func (pc *parentController) syncParentObject(parent *unstructured.Unstructured) 
 		if apierrors.IsNotFound(err) {
 			// Swallow the error since there's no point retrying if the parent is gone.
 			pc.logger.V(4).Info("Parent object has been deleted", "parent_kind", pc.parentResource.Kind, "object", klog.KRef(parent.GetNamespace(), parent.GetName()))
-			return nil
+			return manageErr
 		} else if apierrors.IsConflict(err) {
 			// it is possible that the object was modified after this sync was started, ignore conflict since we will reconcile again
 			pc.logger.V(4).Info("Parent ignoring update due to outdated resourceVersion", "parent_kind", pc.parentResource.Kind, "object", klog.KRef(parent.GetNamespace(), parent.GetName()))
-			return nil
+			return manageErr
 		}
 		return fmt.Errorf("can't update status for %v %v/%v: %w", pc.parentResource.Kind, parent.GetNamespace(), parent.GetName(), err)
 	}
